@@ -89,6 +89,41 @@ OBLIGATIONS = [
 
 
 # ---------------------------------------------------------------------------------------
+# exact boundary, concrete lines: the filler sits in different URL components (the length
+# abstraction above only follows the request line itself, not strings derived from it)
+# ---------------------------------------------------------------------------------------
+def _line(shape, total):
+    """request line (without CRLF) of exactly ``total`` bytes"""
+    pre, suf = [("gemini://h/", ""), ("gemini://h?", ""), ("gemini://", ""), ("gemini://", "/"),
+                ("gemini://[2001:db8::1]:1966?", ""), ("gemini://h:1965/p;", "?q"), ("gemini://H.example/%41", "")][shape]
+    return pre + "a" * (total - len(pre) - len(suf)) + suf
+
+
+EXACT = [[_line(sh, 1024 - 2 + d) for d in (-3, -2, -1, 0, 1, 2)] for sh in range(7)]
+
+
+def len_exact(shape: int, di: int) -> bool:
+    """
+    pre: 0 <= shape < 7 and 0 <= di < 6
+    post: _
+    """
+    spy = Spy()
+    p, t, loop = make(spy)
+    url = EXACT[shape][di]
+    p.data_received(url.encode() + b"\r\n")
+    loop.run_ready()
+    fits = len(url) + 2 <= 1024
+    if not fits:
+        return V(len(spy.calls) == 0 and _status(t) == b"59")
+    if len(spy.calls) != 1 or _status(t) != b"20":
+        return V(False)                         # a request line of at most 1024 bytes was refused
+    r = spy.calls[0]
+    from urllib.parse import urlsplit
+    ref = urlsplit(url)
+    return V(r.hostname == ref.hostname and r.port == (ref.port or 1965) and r.path == (ref.path or "/") and r.query == ref.query)
+
+
+# ---------------------------------------------------------------------------------------
 # Character classes as predicates over code points.  Symbolic characters are always
 # introduced as chr(<symbolic int>) with range preconditions: CrossHair then forks only on
 # the distinctions the code under test makes (measured: preconditions of the form
@@ -374,6 +409,11 @@ def titan_noparams(k: int, c: int) -> bool:
 
 CP = "code point"
 OBLIGATIONS += [
+    Ob("len_exact", len_exact, quick=120, thorough=300,
+       symbolic="7 URL shapes (filler in path / query with empty path / host / host+slash / IPv6+port+query / params+query / "
+                "upper-case host + pct-encoding) x total line length 1021..1026 bytes, by symbolic index",
+       functions=["GeminiServerProtocol.data_received", "GeminiRequest.from_line", "validate_url", "parse_url"],
+       note="discrete: concrete lines at the exact limit"),
     Ob("accept_host", accept_host, quick=150, thorough=600,
        symbolic="1 host character as a symbolic code point: any reg-name character (printable ASCII minus gen-delims and excluded characters) | IPv4 digit | IPv6 hex digit",
        enum="3 host forms x 3 port forms",
